@@ -38,6 +38,20 @@ def picotool_tokens(src, chunked=False):
     return lx.tokens
 
 
+def picotool_tokens_in_calls(src, cuts):
+    """The same text handed to ONE Lexer object in several process_lines() calls, cut at the given offsets (line ends at which no
+    token is open)."""
+    from pico8.lua import lexer
+    lx = lexer.Lexer(version=ambient.VERSION[0])
+    prev = 0
+    for c in list(cuts) + [len(src)]:
+        seg = src[prev:c]
+        prev = c
+        if seg:
+            lx.process_lines([seg])
+    return lx.tokens
+
+
 def first_divergence(rt, pt, values=True):
     """-> None, or (index, description, reference token or None).  rt: reference tokens (labels merged)."""
     n = min(len(rt), len(pt))
